@@ -11,7 +11,7 @@ from typing import Annotated, Final, Literal, get_args
 
 from typing_extensions import TypeAlias
 
-from pyplumio.const import STATE_OFF, STATE_ON, FrameType
+from pyplumio.const import ATTR_SCHEDULE, STATE_OFF, STATE_ON, FrameType
 from pyplumio.devices import PhysicalDevice
 from pyplumio.frames import Request
 from pyplumio.structures.schedules import collect_schedule_data
@@ -171,6 +171,9 @@ class Schedule(Iterable):
             await Request.create(
                 FrameType.REQUEST_SET_SCHEDULE,
                 recipient=self.device.address,
-                data=collect_schedule_data(self.name, self.device),
+                data={
+                    **collect_schedule_data(self.name, self.device),
+                    ATTR_SCHEDULE: self,
+                },
             )
         )
